@@ -71,6 +71,11 @@ func (r *RTPBuffer) Add(packet *RetainablePacket) {
 			r.packets[idx] = nil
 		}
 		r.highestAdded = seq
+	} else if r.highestAdded-seq >= r.size {
+		// too old: already outside the window, storing it would evict a newer packet
+		packet.Release()
+
+		return
 	}
 
 	idx := seq % r.size
